@@ -125,6 +125,12 @@ var c17 = Register("C17", "C17.root", func(a c17Args) *Violation {
 		hi2 := new(big.Int).Add(new(big.Int).Mul(c, ref.Pow10(20)), m2)
 		if (lo2.Sign() > 0 && cmp(pw(lo2)) < 0) || cmp(pw(hi2)) > 0 {
 			st.Class(name + "/root-within-1e-6ulp-of-midpoint")
+			m3 := new(big.Int).Sub(new(big.Int).Mul(big5, ref.Pow10(19)), ref.Pow10(8))
+			lo3 := new(big.Int).Sub(new(big.Int).Mul(c, ref.Pow10(20)), m3)
+			hi3 := new(big.Int).Add(new(big.Int).Mul(c, ref.Pow10(20)), m3)
+			if (lo3.Sign() > 0 && cmp(pw(lo3)) < 0) || cmp(pw(hi3)) > 0 {
+				st.Class(name + "/root-within-1e-12ulp-of-midpoint")
+			}
 		}
 		r := ((n.Exp % k) + k) % k
 		st.Class(name + "/exp-mod-" + itoa(k) + "=" + itoa(r))
@@ -193,8 +199,100 @@ func genRootArg(t *rapid.T, cube bool) D {
 	return d
 }
 
+// henselSqrtArg constructs an argument whose square root lies extremely close to a rounding midpoint, by
+// solving w(w+1) = c (mod 10^34) with Hensel lifting: then d = (w^2 + w - c) / 10^34 is an integer of about 34
+// digits and sqrt(d * 10^34) = (w + 1/2) - (c + 1/4)/(2w+1) - ..., i.e. the root misses the midpoint above w by
+// about c/(2w) units in the last place. c is drawn so that this distance lies between 1e-20 (the property's
+// exemption) and about 1e-9 ulp, on either side of the midpoint.
+func henselSqrtArg(t *rapid.T) (D, bool) {
+	k := 34
+	mod2, mod5 := new(big.Int).Lsh(ref.One, uint(k)), pow(5, k)
+	m10 := ref.Pow10(k)
+	// c even with c mod 5 in {0, 2} (simple roots modulo 2 and 5); sign selects the side of the midpoint
+	mag := ir(t, 15, 25, "cDigits")
+	c := genDigits(t, mag)
+	c.Sub(c, new(big.Int).Mod(c, ref.Ten)) // ...0
+	if ir(t, 0, 1, "plus2") == 1 {
+		c.Add(c, ref.Two)
+	}
+	above := ir(t, 0, 1, "above") == 1
+	target := new(big.Int).Set(c) // w(w+1) = target (mod 10^k), target = c (below) or -c (above)
+	if above {
+		target.Neg(c)
+	}
+	lift := func(p int64, pk *big.Int, steps int) *big.Int {
+		// root of f(w) = w^2 + w - target modulo p, lifted to p^steps by Newton's iteration
+		var w *big.Int
+		pp := big.NewInt(p)
+		for r := int64(0); r < p; r++ {
+			f := new(big.Int).Sub(big.NewInt(r*r+r), target)
+			if new(big.Int).Mod(f, pp).Sign() == 0 && (2*r+1)%p != 0 {
+				if w == nil || ir(t, 0, 1, "root") == 1 {
+					w = big.NewInt(r)
+				}
+			}
+		}
+		if w == nil {
+			return nil
+		}
+		cur := new(big.Int).Set(pp)
+		for cur.Cmp(pk) < 0 {
+			cur.Mul(cur, cur)
+			if cur.Cmp(pk) > 0 {
+				cur.Set(pk)
+			}
+			f := new(big.Int).Mul(w, w)
+			f.Add(f, w)
+			f.Sub(f, target)
+			fp := new(big.Int).Lsh(w, 1)
+			fp.Add(fp, ref.One)
+			inv := new(big.Int).ModInverse(new(big.Int).Mod(fp, cur), cur)
+			if inv == nil {
+				return nil
+			}
+			w.Sub(w, new(big.Int).Mul(f, inv))
+			w.Mod(w, cur)
+		}
+		return w
+	}
+	w2, w5 := lift(2, mod2, k), lift(5, mod5, k)
+	if w2 == nil || w5 == nil {
+		return D{}, false
+	}
+	// CRT
+	inv := new(big.Int).ModInverse(new(big.Int).Mod(mod2, mod5), mod5)
+	diff := new(big.Int).Sub(w5, w2)
+	diff.Mul(diff, inv)
+	diff.Mod(diff, mod5)
+	w := new(big.Int).Add(w2, new(big.Int).Mul(mod2, diff))
+	w.Mod(w, m10)
+	lowest := new(big.Int).Quo(new(big.Int).Add(ref.Cmax, ref.One), ref.Ten)
+	if w.Cmp(lowest) < 0 {
+		w.Add(w, m10)
+	}
+	if w.Cmp(ref.Cmax) > 0 || w.Cmp(lowest) < 0 {
+		return D{}, false
+	}
+	num := new(big.Int).Mul(w, w)
+	num.Add(num, w)
+	num.Sub(num, target)
+	rem := new(big.Int)
+	d, _ := new(big.Int).QuoRem(num, m10, rem)
+	if rem.Sign() != 0 || d.Sign() <= 0 || d.Cmp(ref.Cmax) > 0 {
+		return D{}, false
+	}
+	e := 2 * ir(t, -3000, 3000, "halfExp")
+	return DFin(false, d, clampExp(e)), true
+}
+
 func TestC17_Sqrt(t *testing.T) {
 	runRapid(t, 60000, 3000000, func(t *rapid.T) {
+		if ir(t, 0, 4, "hensel") == 0 {
+			if v, ok := henselSqrtArg(t); ok {
+				c17.Run(t, c17Args{V: v})
+				return
+			}
+		}
 		c17.Run(t, c17Args{V: genRootArg(t, false)})
 	})
 }
